@@ -48,6 +48,9 @@ registry! {
     "C05" => c05,
     "C06" => c06,
     "C11" => c11,
+    "C12" => c12,
+    "C13" => c13,
+    "C14" => c14,
     "C15" => c15,
 }
 
